@@ -32,7 +32,7 @@ CLAIMS = [
     },
     {
         'property_id': 'C06',
-        'level': 'other',
+        'level': 'proof',
         'technique': 'contract-based deductive verification of the real function bodies (sidecar contracts, VCs to '
                      'z3/cvc5), per discrete configuration; _topological_sort evaluated on enumerated pair sets',
         'text': 'Sign, monotonic-dominance, range-dominance, unit-norm, categorical ordering, bounds and '
@@ -43,9 +43,23 @@ CLAIMS = [
                 'floats. Bounded: DAGs on <= 4 nodes, linear dims <= 3/4, <= 2 dominance pairs, concrete input ranges, units <= 2.',
         'design_ref': 'DESIGN.md section 4 C06',
     },
+    {
+        'property_id': 'C12',
+        'level': 'proof',
+        'technique': 'contract-based deductive verification: real assert_constraints bodies run on symbolic weights '
+                     'and symbolic eps, recorded tf.Assert conditions proved equivalent to the index-by-index spec (z3/cvc5)',
+        'text': 'For lattice, PWL (library level), linear and categorical assert_constraints: (1) the call returning '
+                'implies every covered constraint has slack >= -2*eps, (2) every covered constraint holding implies the '
+                'call returns - for ALL weight tensors and all eps > 0, per enumerated configuration. Two genuine defects '
+                'found by these obligations were repaired by fix: commits.',
+        'note': 'Trusted: operator contracts incl. tf.Assert (scalar-boolean precondition) cross-checked on accept/raise '
+                'outcome against TensorFlow each run, z3/cvc5, reals for floats. Bounded configuration enumeration. '
+                'KFL / layer-level PWL / RTL assertions are not yet under contract.',
+        'design_ref': 'DESIGN.md section 4 C12',
+    },
 ]
 
 _PENDING = 'check not built yet in this session (planned, see DESIGN.md section 4); not claimed until its check exists'
 NOT_APPLICABLE = [
-    {'property_id': 'C%02d' % i, 'reason': _PENDING} for i in range(2, 21) if i not in (4, 6)
+    {'property_id': 'C%02d' % i, 'reason': _PENDING} for i in range(2, 21) if i not in (4, 6, 12)
 ]
